@@ -146,7 +146,11 @@ CONSTANTS
   ErrCodes = {"e1", "e2"}
   Deviations = {}
   SharedCatchPrev = FALSE
+  AdvSet = {%(adv)s}
+  MaxTime = %(maxtime)d
+  Grid = {%(grid)s}
 VIEW View
+CONSTRAINT ClockGrid
 CHECK_DEADLOCK FALSE
 '''
 
@@ -162,15 +166,25 @@ CORE = {
     'C06': (['C06_Propagates', 'C06_CatchMatches', 'C06_CatchStepsOnce', 'C06_CaughtCompletes'], []),
     'C08': (['C08_AtMostOne', 'C08_CreatedFirst', 'C08_TerminalReported', 'C08_BranchSilent', 'C08_MsgAct',
              'C08_ParentFirst'], []),
+    'C19': (['C19_Once', 'C19_NeverEarly', 'C19_OnlyOpen', 'C19_Prompt'], ['C19_TickKeepsStates']),
 }
+
+# which trace group a property's conformance leg uses (default: core)
+GROUP = {'C19': 'clock'}
 
 TIERS = {
     # mc: list of (family, client action budget); rand: list of (family, runs, shards)
     'quick': dict(mc=[('hand+core6', 1), ('handseq', 2)], mc_workers=8, mc_timeout=900,
+                  mc_clock=[('timed', 1), ('timedunits', 0)],
+                  clock=dict(explore=[('timedsmall', 0, 4, 2)], rand=[('timed+timedunits', 1200, 3)], rand_budget=2,
+                             rand_pact=0.2, nat_runs=0),
                   explore=[('handseq', 2, 10, 2)],      # (family, client budget, processes, files per process)
                   rand=[('hand', 600, 2), ('core6', 1800, 4)], rand_budget=4, rand_pact=0.35,
                   nat_family='hand+core6', nat_runs=1000, nat_shards=2),
     'thorough': dict(mc=[('hand+core7', 2), ('handseq', 3)], mc_workers=12, mc_timeout=7200,
+                     mc_clock=[('timed', 2), ('timedunits', 1)],
+                     clock=dict(explore=[('timed', 2, 12, 4), ('timedunits', 1, 4, 1)],
+                                rand=[('timed+timedunits', 20000, 6)], rand_budget=4, rand_pact=0.25, nat_runs=0),
                      explore=[('handseq', 3, 14, 4), ('hand', 1, 14, 4), ('core6', 1, 8, 2)],
                      rand=[('hand', 12000, 4), ('core7+branchy', 40000, 10)], rand_budget=5,
                      rand_pact=0.35, nat_family='hand+core7', nat_runs=20000, nat_shards=4),
@@ -181,7 +195,7 @@ def mc_check(prop, tier):
     """TLC on the specification, one run per (family, budget) of the tier; stops at the first violated run."""
     t = TIERS[tier]
     runs = []
-    for i, (famname, budget) in enumerate(t['mc']):
+    for i, (famname, budget) in enumerate(t['mc_clock'] if GROUP.get(prop) == 'clock' else t['mc']):
         r = mc_one(prop, tier, famname, budget, i)
         runs.append(r)
         if r['violated']:
@@ -199,7 +213,14 @@ def mc_one(prop, tier, famname, budget, idx):
     invs, props = CORE[prop]
     t = TIERS[tier]
     fam = family(famname)
-    cfg = MC_CONSTANTS % dict(budget=budget, kinds=', '.join('"%s"' % k for k in ALL_KINDS))
+    adv, grid = set(), {0}
+    for ln in open(fam):
+        c = json.loads(ln).get('clock') or {}
+        adv |= set(c.get('adv', []))
+        grid |= set(c.get('grid', []))
+    cfg = MC_CONSTANTS % dict(budget=budget, kinds=', '.join('"%s"' % k for k in ALL_KINDS),
+                              adv=', '.join(str(x) for x in sorted(adv)), maxtime=max(grid),
+                              grid=', '.join(str(x) for x in sorted(grid)))
     cfg += ''.join('INVARIANT %s\n' % i for i in invs) + ''.join('PROPERTY %s\n' % p for p in props)
     tag = 'mc-%s-%s-%d' % (prop, tier, idx)
     dump = '%s/cfg/%s.trace.json' % (WORK, tag)
@@ -231,6 +252,8 @@ CONSTANTS
   ErrCodes = {"e1", "e2"}
   Deviations = {}
   SharedCatchPrev = FALSE
+  AdvSet = {1}
+  MaxTime = 0
 POSTCONDITION %(post)s
 CHECK_DEADLOCK FALSE
 '''
@@ -314,9 +337,11 @@ def observe_validate(path, tag):
     return dict(obs=obs, wall=wall)
 
 
-def record_traces(tier, seed, key):
+def record_traces(tier, seed, key, group='core'):
     """run the tier's scenario set on the engine; returns the list of trace files"""
     t = TIERS[tier]
+    if group != 'core':
+        t = dict(t[group], nat_family=None)
     d = '%s/traces/%s' % (CACHE, key)
     os.makedirs(d, exist_ok=True)
     files = []
@@ -324,7 +349,7 @@ def record_traces(tier, seed, key):
     # 1. regression behaviours of fixed and known defects (spec -> impl replay)
     reg_models = VERIF + '/regress/models.ndjson'
     reg_beh = VERIF + '/regress/behaviours.ndjson'
-    if os.path.exists(reg_beh):
+    if os.path.exists(reg_beh) and group == 'core':
         out = d + '/regress.ndjson'
         jobs.append((out, [HARNESS, 'replay', '--models', reg_models, '--behaviours', reg_beh, '--out', out,
                            '--drain', '--workdir', d + '/run']))
@@ -352,13 +377,13 @@ def record_traces(tier, seed, key):
                          [HARNESS, 'explore', '--models', fam, '--out', out, '--budget', str(budget),
                           '--kinds', ','.join(ALL_KINDS), '--shard', str(i), '--shards', str(shards),
                           '--split', str(split), '--max-runs', '200000', '--workdir', d + '/run']))
-    fam = family(t['nat_family'])
+    fam = family(t['nat_family'] or 'hand')
     nmodels = count_lines(fam)
 
     # 3. ungated runs on current-thread and 1..8-worker runtimes (thread-count independence);
     #    one process at a time per harness process, so few shards
-    per = (t['nat_runs'] + t['nat_shards'] - 1) // t['nat_shards']
-    for i in range(t['nat_shards']):
+    per = (t['nat_runs'] + t.get('nat_shards', 1) - 1) // t.get('nat_shards', 1)
+    for i in range(t.get('nat_shards', 1) if t['nat_runs'] else 0):
         out = '%s/nat-%02d.ndjson' % (d, i)
         jobs.append((out, [HARNESS, 'natural', '--models', fam, '--out', out, '--runs', str(per),
                            '--seed', str(seed * 1000 + 500 + i), '--offset', str((i * per) % nmodels),
@@ -379,21 +404,21 @@ def record_traces(tier, seed, key):
     return files
 
 
-def ensure_traces(tier, seed):
+def ensure_traces(tier, seed, group='core'):
     """traces + STRICT + OBSERVE results for the current tree, cached"""
-    key = '%s-%s-s%d-%s' % (tree_hash(), tier, seed, spec_hash())
+    key = '%s-%s-%s-s%d-%s' % (tree_hash(), group, tier, seed, spec_hash())
     d = '%s/traces/%s' % (CACHE, key)
     res_path = d + '/results.json'
     if os.path.exists(res_path):
         log('traces: cached', key)
         return json.load(open(res_path))
     # keep the cache small: drop older trace sets
-    olds = sorted((p for p in glob.glob(CACHE + '/traces/*') if os.path.basename(p) != key),
+    olds = sorted((p for p in glob.glob(CACHE + '/traces/*-%s-%s-*' % (group, tier)) if os.path.basename(p) != key),
                   key=os.path.getmtime)
     for old in olds[:-1]:
         shutil.rmtree(old, ignore_errors=True)
     t0 = time.time()
-    files = record_traces(tier, seed, key)
+    files = record_traces(tier, seed, key, group)
     log('traces: recorded %d files in %.0fs' % (len(files), time.time() - t0))
 
     def validate(f):
@@ -484,7 +509,7 @@ def check_core(prop, tier, seed):
         (mc['states'], mc['transitions'], mc['wall'], mc['violated']))
 
     # legs 2+3: the implementation
-    tr = ensure_traces(tier, seed)
+    tr = ensure_traces(tier, seed, GROUP.get(prop, 'core'))
     n_nat = sum(f['strict']['scenarios'] for f in tr['files'] if f['strict'].get('natural'))
     n_scen = sum(f['strict']['scenarios'] for f in tr['files'])
     n_lines = sum(f['strict']['lines'] for f in tr['files'])
